@@ -26,7 +26,7 @@ func genC11(r *PRNG, tier string) *Scenario {
 	}
 	l := &scn.Links[0]
 	// controllers get deadlines around the stall lengths
-	dls := []int{0, 100, 1000, 1500, 30000, 3600000}
+	dls := []int{0, 100, 1000, 1500, 30000, 3600000, -50}
 	for _, ts := range [][]TaskCfg{l.CTasks, l.STasks} {
 		for i := range ts {
 			if ts[i].Kind != "ctl" {
@@ -216,6 +216,15 @@ func checkWriteControl(run *Run, e *RealEnd, tv *TapView) {
 		for _, r := range t.Hist {
 			if r.Teardown {
 				continue
+			}
+			if r.Op == "WriteControl" && r.N < 0 {
+				// a deadline that has already passed: a time-out at once, nothing written
+				if r.Err != "timeout" && r.Err != "ErrCloseSent" && !invalidRequest(r) {
+					run.fail("C11", "expired-deadline-ignored", r.Err, "%s: WriteControl with a deadline in the past returned %q", who, r.Err)
+				}
+				if r.TReturn != r.TInvoke {
+					run.fail("C11", "writecontrol-late", "expired", "%s: WriteControl with a deadline in the past took %d ns", who, r.TReturn-r.TInvoke)
+				}
 			}
 			if r.Op == "WriteControl" && r.N > 0 {
 				d := r.TInvoke + int64(r.N)*1e6
